@@ -58,7 +58,7 @@ Lemma lsum_nil_map {A} (f : A -> R) : lsum (map f []) = 0. Proof. reflexivity. Q
     both sides are additive in the list, so it suffices to compare the per-body increments *)
 Ltac lsum_ind bs tac :=
   induction bs as [|?b bs ?IH];
-  [ cbn [map]; rewrite ?lsum_nil_map; try ring
+  [ cbn [map]; unfold lsum; cbn [fold_right]; try ring
   | cbn [map]; rewrite !lsum_cons; rewrite IH; tac ].
 
 (** the C++ zero test *)
@@ -205,6 +205,11 @@ Proof. unfold sysInertiaAboutGround, inertiaAbout. rewrite sumS_ssum. unfold ssu
     - intros Hm. dbody b. cbn [g_m] in Hm. subst. c15unf. teq; ring. }
   f_equal; apply vsum_ext; intros b; rewrite E; reflexivity. Qed.
 
+(** the inertia reported by calcSystemMassPropertiesInGround is the sum of the per-body inertias about the Ground origin *)
+Lemma system_inertia_about_ground_is_sum bs : calcSystemMass ROps bs <> 0 ->
+  sysMassPropsInertia ROps bs = inertiaAbout (v3_zero ROps) bs.
+Proof. intros H. unfold sysMassPropsInertia. rewrite toUnit_roundtrip by (intros; contradiction). apply sysInertiaAboutGround_is_sum. Qed.
+
 (** sum_b m_b u(c_b - Q)  in terms of the moments: the identity behind the parallel-axis theorem.
     It is proved for an arbitrary point Q, by additivity in the list. *)
 Lemma inertiaAbout_shift (Q : Vec3 R) bs :
@@ -255,3 +260,18 @@ Lemma central_inertia_massless bs : calcSystemMass ROps bs = 0 -> calcSystemCent
 Proof. intros H. unfold calcSystemCentralInertiaInGround, toUnitInertia. rewrite H.
   assert (E : isZero ROps 0 = true) by (apply isZero_true; reflexivity). rewrite E.
   destruct (calcSystemMassCenterLocationInGround ROps bs) as [[x y] z]. c15unf. teq; ring. Qed.
+
+(** non-vacuity of the hypothesis [total mass <> 0]: a massless and two massive bodies *)
+Example agg_hyp_satisfiable :
+  let b0 : bodyR := mkBody 0 (0,0,1) (1,1,1) ((0,0,0),(0,0,0)) ((1,0,0),(0,1,0)) ((0,0,0),(0,0,0)) in
+  let b1 : bodyR := mkBody 1 (1,0,0) (0,1,0) ((1,1,1),(0,0,0)) ((0,0,1),(1,0,0)) ((0,1,0),(0,0,1)) in
+  let b2 : bodyR := mkBody 2 (0,2,0) (0,0,1) ((2,2,1),(0,0,0)) ((0,1,0),(0,0,1)) ((1,0,0),(0,0,0)) in
+  calcSystemMass ROps [b0; b1; b2] = 3 /\ calcSystemMass ROps [b0; b1; b2] <> 0
+  /\ calcSystemMassCenterLocationInGround ROps [b0; b1; b2] = (1/3, 5/3, 2/3).
+Proof. cbv zeta. assert (E : calcSystemMass ROps [mkBody 0 (0,0,1) (1,1,1) ((0,0,0),(0,0,0)) ((1,0,0),(0,1,0)) ((0,0,0),(0,0,0));
+     mkBody 1 (1,0,0) (0,1,0) ((1,1,1),(0,0,0)) ((0,0,1),(1,0,0)) ((0,1,0),(0,0,1));
+     mkBody 2 (0,2,0) (0,0,1) ((2,2,1),(0,0,0)) ((0,1,0),(0,0,1)) ((1,0,0),(0,0,0))] = 3).
+  { unfold calcSystemMass, sumT. cbn. lra. }
+  split; [exact E|]. split; [rewrite E; lra|].
+  unfold calcSystemMassCenterLocationInGround. rewrite divIfNonzero_nz by (rewrite E; lra). rewrite E.
+  unfold weightedCom, sumV. cbn. teq; lra. Qed.
